@@ -22,6 +22,7 @@ RULE = ("parameter points: exponential a in (0.01,5], poisson mean in (0.05,30] 
         "one case = one parameter point evaluated over its whole summed support; every point is non-trivial; "
         "distinct = SHA-1 of (distribution, parameters)")
 RULE += ("; rounds k-l added: " + 'exponential rates 40, 709, 710, 745, 746, 800, 5000; vector calls p(array) where the function accepts them (entries of in-support degrees compared with the scalar values; arrays starting, ending or interleaved with an out-of-support degree, uint8, float-typed, 2-d)')
+RULE += '; round m: keyword arguments in another order than the signature'
 ASSUMPTIONS = ["oracle: 50-digit decimal closed forms; zeta/polylog by direct summation + Euler-Maclaurin tail",
                "tolerance for power laws = 1.5 * (mass of all series terms below 1e-6) / exact normaliser + 1e-12; closed forms 1e-12 relative",
                "Poisson evaluated for k <= 120 only (float overflow of k! beyond 170 is outside what is asserted)"]
